@@ -322,7 +322,9 @@ def run(ctx):
         return case
 
     # spec -> code
-    bases = ctx.pick([("hexflower", "MC_CellRemoval.cfg"), ("squares33", "MC_CellRemoval.cfg"), ("brick33", "MC_CellRemoval_k0.cfg")],
+    # quick: the repaired function is checked on hexflower only (the _light configurations leave RepairedSatisfiesD out)
+    bases = ctx.pick([("hexflower", "MC_CellRemoval.cfg"), ("squares33", "MC_CellRemoval_light.cfg"),
+                      ("brick33", "MC_CellRemoval_k0_light.cfg")],
                      [("hexflower", "MC_CellRemoval.cfg"), ("squares33", "MC_CellRemoval.cfg"), ("brick33", "MC_CellRemoval.cfg"),
                       ("hex33", "MC_CellRemoval.cfg"), ("irregular", "MC_CellRemoval_k0.cfg")])
     from concurrent.futures import ThreadPoolExecutor
